@@ -8,7 +8,7 @@ from .common import V, finite_result, knob_key, nondefault_knobs, seam_violation
 ID = "C06"
 LEVEL = "exploration"
 RULE = (
-    "world = adversarial problem families (feasible, infeasible, unbounded, degenerate/rank-deficient, domain-restricted, fixed "
+    "world = adversarial problem families (feasible, infeasible, unbounded, degenerate/rank-deficient, non-convex with exactly singular step matrices, domain-restricted, fixed "
     "variables, zero constraints, n = 1) x every supported knob combination (Newton type, step solver, linear solver, step control, "
     "penalty policy, active-set rule, scaling, rho, lambda settings, validate_input, derivative check) x reporting options (log level, "
     "display interval, rcond, path, callbacks) x virtual-clock plans (finite time limits, displayed rows); no device faults (finite "
@@ -23,7 +23,7 @@ GATES = ("nontrivial", "outcome.status:Optimal", "outcome.status:LocallyInfeasib
 
 
 def generate(rng, seed, index, tier):
-    fam = str(rng.choice(["qp", "nlp", "infeasible", "unbounded", "degenerate", "domain", "zero-cons"], p=[0.2, 0.2, 0.15, 0.15, 0.15, 0.05, 0.1]))
+    fam = str(rng.choice(["qp", "nlp", "infeasible", "unbounded", "degenerate", "domain", "zero-cons", "saddle"], p=[0.17, 0.17, 0.13, 0.13, 0.13, 0.05, 0.1, 0.12]))
     spec, x0, y0 = gen.gen_problem(rng, fam, fixed_prob=0.4)
     kw = gen.gen_params(rng, spec, x0, y0, p_knob=0.6, reporting=True)
     kw["iteration_limit"] = int(rng.choice([5, 50, 300, 1000], p=[0.15, 0.45, 0.25, 0.15]))
@@ -33,6 +33,12 @@ def generate(rng, seed, index, tier):
         kw["validate_input"] = False
     if rng.random() < 0.1:
         kw["deriv_check"] = str(rng.choice(["CheckFirst", "CheckSecond", "CheckAll"]))
+    if fam == "saddle" and rng.random() < 0.7:
+        kw.pop("lamb_init", None)  # lambda starts at 1 and moves by factors of two
+        kw.pop("scaling_type", None)
+        kw.pop("scaling", None)
+        kw.pop("scaling_primal", None)
+        kw.pop("scaling_dual", None)
     if rng.random() < 0.1:
         kw["lamb_max"] = float(rng.choice([10.0, 1e4, 1e8]))
     if rng.random() < 0.1:
